@@ -221,7 +221,11 @@ def builder_stages(prop, tier, seed):
     if prop == "C08":
         return [base, coal, fan, finders, warn, rand_worlds] if q else [base, coal, fan, finders, warn, vers, rand_worlds]
     if prop == "C17":
-        return [vers]
+        # registry sources reported as dependencies: one analysed artifact reports the same registry source with different
+        # allowed sets (each request resolves to the newest offered version inside its own set)
+        depvers = builder_stage("depvers", prop, seed, {"Adds": "<- MCAddsP", "Pkgs": '{"P1"}', "Subs": "<- MCSubs1", "AllowedSets": "<- MCAllowedD",
+                                                        "MaxEdges": "2", "MaxAdds": "1", "LocalRels": "{}"})
+        return [vers, depvers]
     if prop == "C12":
         g = "0,%d" % (seed * 3 + 1)
         ufault = dict(name="readfaults", module="MC_Unpack", cfg="MC_Unpack_q.cfg", family="unpack", judge=UNPACK_JUDGE, exhaustive=True,
